@@ -287,3 +287,337 @@ Ltac okt P_ok :=
     | solve [apply (okl_ok _ P_ok); repeat constructor; unfold ok_byte; lia]
     | match goal with |- _ (_ :: _) => constructor; [solve [apply P_ok; unfold ok_byte; lia] |] end
     | match goal with |- _ (if ?b then _ else _) => destruct b end ].
+
+(* ---------- hosts ---------- *)
+(* where a host value written by the parser can come from *)
+Definition host_origin (hp hpo : list N -> result host) (h : host) : Prop :=
+  h = HDomain [] \/ (exists s, hp s = Ok h) \/ (exists s, hpo s = Ok h).
+(* the hypothesis about the host functions: what they produce prints inside 0x21..0x7E *)
+Definition HostOK (hp hpo : list N -> result host) (hd : host -> list N) : Prop :=
+  forall h, host_origin hp hpo h -> Forall ok_byte (hd h).
+
+(* the input classes that reach the opaque-path state *)
+Definition opaque_branch (l : list N) : bool :=
+  match inp_split_prefix_str s_ss l with
+  | Some _ => false
+  | None => match inp_split_prefix_char 47 l with Some _ => false | None => true end
+  end.
+Definition opaque_input (scheme l : list N) : bool :=
+  match scheme_type_of scheme with STNotSpecial => opaque_branch l | _ => false end.
+Definition url_opaque_input (input : list N) : bool :=
+  match parse_scheme CUrlParser (input_new_trim_c0 input) with
+  | Some (scheme, remaining) => opaque_input scheme remaining
+  | None => false
+  end.
+
+Lemma match47 {A} (c : N) (a b : A) : (match c with 47 => a | _ => b end) = if c =? 47 then a else b.
+Proof. destruct c as [|p]; [reflexivity|]. do 6 (destruct p as [p|p|]; try reflexivity). Qed.
+
+Lemma okl_oks (P : N -> Prop) l : P 32 -> (forall b, ok_byte b -> P b) -> Forall ok_or_space l -> okl P l.
+Proof.
+  intros H32 Hok H. eapply Forall_impl; [|exact H]. intros b Hb. apply ok_or_space_iff in Hb.
+  destruct Hb as [Hb| ->]; [apply Hok; exact Hb | exact H32].
+Qed.
+
+Lemma split_on_aux_okl (P : N -> Prop) sep l : forall cur, okl P cur -> okl P l -> Forall (okl P) (split_on_aux sep cur l).
+Proof.
+  induction l as [|x r IH]; intros cur Hc Hl; cbn [split_on_aux].
+  - constructor; [apply Forall_rev; exact Hc | constructor].
+  - inversion Hl; subst. destruct (x =? sep).
+    + constructor; [apply Forall_rev; exact Hc | apply IH; [constructor | assumption]].
+    + apply IH; [constructor; assumption | assumption].
+Qed.
+
+Section WithHosts.
+Variable P : N -> Prop.
+Hypothesis P_ok : forall b, ok_byte b -> P b.
+Variable dbg : bool.
+Variable host_parse host_parse_opaque : list N -> result host.
+Variable host_display : host -> list N.
+Variable ovr : option (list N -> list N).
+Hypothesis HOK : HostOK host_parse host_parse_opaque host_display.
+Notation okl := (okl P).
+Notation origin := (host_origin host_parse host_parse_opaque).
+
+Lemma host_display_okl h : origin h -> okl (host_display h).
+Proof. intros H. apply (okl_ok _ P_ok), HOK. exact H. Qed.
+
+Lemma get_file_host_origin l h rem : get_file_host host_parse l = POk (h, rem) -> origin h.
+Proof.
+  unfold get_file_host. destruct (file_host l) as [t r]. intros H. pb H h0 Hh0. apply of_result_ok in Hh0.
+  inversion H; subst. destruct h0 as [d| |]; try (right; left; eexists; exact Hh0).
+  destruct (list_eqb d s_localhost); [left; reflexivity | right; left; eexists; exact Hh0].
+Qed.
+
+Lemma parse_host_origin st l h rem : parse_host host_parse host_parse_opaque st l = POk (h, rem) -> origin h.
+Proof.
+  unfold parse_host. intros H. destruct (st_is_file st); [eapply get_file_host_origin; exact H|].
+  destruct (host_scan (st_is_special st) false [] l) as [t r].
+  destruct (scheme_type_eqb st STSpecialNotFile && match t with [] => true | _ => false end); [discriminate|].
+  destruct (negb (st_is_special st)); pb H h0 Hh0; apply of_result_ok in Hh0; inversion H; subst.
+  - right; right; eexists; exact Hh0.
+  - right; left; eexists; exact Hh0.
+Qed.
+
+Lemma parse_file_host_okl ser l s flag hi rem :
+  parse_file_host host_parse host_display ser l = POk (s, flag, hi, rem) -> okl ser -> okl s.
+Proof.
+  unfold parse_file_host. destruct (file_host l) as [t r]. intros H Hs.
+  destruct t as [|x t]; [inversion H; subst; exact Hs|].
+  pb H h0 Hh0. apply of_result_ok in Hh0.
+  assert (okl (ser ++ host_display h0)) as Hd.
+  { apply okl_app; [exact Hs | apply host_display_okl; right; left; eexists; exact Hh0]. }
+  destruct h0 as [d| |]; try (inversion H; subst; exact Hd).
+  destruct (list_eqb d s_localhost); inversion H; subst; assumption.
+Qed.
+
+Lemma parse_host_and_port_okl ctx st se ser l s he hi port rem :
+  parse_host_and_port host_parse host_parse_opaque host_display ctx st se ser l = POk (s, he, hi, port, rem) ->
+  okl ser -> okl s.
+Proof.
+  unfold parse_host_and_port. intros H Hs. pb H a Ha. destruct a as [h remaining]. cbv zeta in H.
+  apply parse_host_origin in Ha.
+  assert (okl (ser ++ host_display h)) as Hd by (apply okl_app; [exact Hs | apply host_display_okl; exact Ha]).
+  pb H he0 Hhe. pb H u_ Hu.
+  destruct (inp_split_prefix_char 58 remaining) as [r|].
+  - pb H b Hb. destruct b as [p rem2].
+    destruct p as [p|]; inversion H; subst; [|exact Hd]. okt P_ok.
+  - inversion H; subst. exact Hd.
+Qed.
+
+Lemma after_double_slash_okl ctx st se ser l u :
+  after_double_slash dbg host_parse host_parse_opaque host_display ovr ctx st se ser l = POk u ->
+  okl ser -> okl (UrlRecord.ser u).
+Proof.
+  unfold after_double_slash. cbv zeta. intros H Hs.
+  pb H a Ha. destruct a as [[ser1 ue] remaining]. pb H hs Hhs.
+  pb H b Hb. destruct b as [[[[ser2 he] hi] port] remaining2].
+  destruct (hi_eqb hi HI_None && negb (nlen (ser ++ [47; 47]) =? nlen ser1)); [discriminate|].
+  pb H ps Hps. pb H c Hc. destruct c as [[ser3 hh] remaining3].
+  eapply with_query_and_fragment_okl; [exact P_ok | exact H|].
+  eapply parse_path_start_okl; [exact P_ok | exact Hc|].
+  eapply parse_host_and_port_okl; [exact Hb|].
+  eapply parse_userinfo_okl; [exact P_ok | exact Ha|]. okt P_ok.
+Qed.
+
+(* ---------- opaque path ---------- *)
+Lemma parse_cannot_be_a_base_path_oks ctx l : forall ser,
+  Forall ok_or_space ser -> Forall ok_or_space (fst (parse_cannot_be_a_base_path ctx ser l)).
+Proof.
+  induction l as [|c r IH]; intros ser Hs; cbn [parse_cannot_be_a_base_path]; [exact Hs|].
+  destruct (is_tnl c); [apply IH; exact Hs|].
+  destruct (((c =? 63) || (c =? 35)) && ctx_eqb ctx CUrlParser); [exact Hs|].
+  apply IH. unfold push_encoded. apply Forall_app. split; [exact Hs|].
+  apply pe_display_ok_space, T_CONTROLS_c0.
+Qed.
+
+Lemma parse_cannot_be_a_base_path_okl ctx l ser : P 32 ->
+  okl ser -> okl (fst (parse_cannot_be_a_base_path ctx ser l)).
+Proof.
+  intros H32. revert ser. induction l as [|c r IH]; intros ser Hs; cbn [parse_cannot_be_a_base_path]; [exact Hs|].
+  destruct (is_tnl c); [apply IH; exact Hs|].
+  destruct (((c =? 63) || (c =? 35)) && ctx_eqb ctx CUrlParser); [exact Hs|].
+  apply IH. unfold push_encoded. apply okl_app; [exact Hs|].
+  apply okl_oks; [exact H32 | exact P_ok | apply pe_display_ok_space, T_CONTROLS_c0].
+Qed.
+
+(* ---------- non-special ---------- *)
+Lemma parse_non_special_okl ctx st se ser l u :
+  (opaque_branch l = true -> P 32) ->
+  parse_non_special dbg host_parse host_parse_opaque host_display ovr ctx st se ser l = POk u ->
+  okl ser -> okl (UrlRecord.ser u).
+Proof.
+  unfold parse_non_special, opaque_branch. intros H32 H Hs.
+  destruct (inp_split_prefix_str s_ss l) as [rem|]; [eapply after_double_slash_okl; eassumption|].
+  pb H ps Hps. pb H a Ha. destruct a as [ser1 remaining].
+  eapply with_query_and_fragment_okl; [exact P_ok | exact H|].
+  destruct (inp_split_prefix_char 47 l) as [rem|].
+  - pb Ha b Hb. destruct b as [[s hh] r]. inversion Ha; subst.
+    eapply parse_path_okl; [exact P_ok | exact Hb|]. okt P_ok.
+  - inversion Ha as [Hx].
+    pose proof (parse_cannot_be_a_base_path_okl ctx l ser (H32 eq_refl) Hs) as Hc.
+    rewrite Hx in Hc. exact Hc.
+Qed.
+
+(* ---------- relative ---------- *)
+Lemma b_scheme_okl b : okl (ser b) -> okl (b_scheme b).
+Proof. intros H. unfold b_scheme. okt P_ok. Qed.
+
+Lemma parse_relative_okl ctx st base l u :
+  parse_relative dbg host_parse host_parse_opaque host_display ovr ctx st base l = POk u ->
+  okl (ser base) -> okl (ser u).
+Proof.
+  unfold parse_relative. intros H Hs.
+  pose proof (b_before_fragment_okl _ base Hs) as Hbf. pose proof (b_before_query_okl _ base Hs) as Hbq.
+  destruct (inp_split_first l) as [fc iaf].
+  destruct fc as [c|]; [|inversion H; subst; exact Hbf].
+  destruct (c =? 63).
+  { pb H a Ha. destruct a as [[s qs] fs]. inversion H; subst. cbn [ser url_with].
+    eapply parse_query_and_fragment_okl; [exact P_ok | exact Ha | exact Hbq]. }
+  destruct (c =? 35); [eapply fragment_only_okl; eassumption|].
+  destruct ((c =? 47) || (c =? 92) && st_is_special st).
+  { destruct (inp_count_matching (fun d : N => (d =? 47) || (d =? 92) && st_is_special st) l) as [slashes remaining].
+    destruct (2 <=? slashes).
+    - cbv zeta in H. pb H u_ Hu.
+      assert (okl (nfirstn (scheme_end base + 1) (ser base))) as H0 by okt P_ok.
+      destruct (negb (st_is_special st)).
+      + destruct (inp_split_prefix_str s_ss l); eapply after_double_slash_okl; eassumption.
+      + eapply after_double_slash_okl; eassumption.
+    - cbv zeta in H. pb H a Ha. destruct a as [[s hh] rem].
+      eapply with_query_and_fragment_okl; [exact P_ok | exact H|].
+      eapply parse_path_okl; [exact P_ok | exact Ha|]. okt P_ok. }
+  cbv zeta in H. pb H s1 Hs1. pb H a Ha. destruct a as [[s3 hh] rem].
+  eapply with_query_and_fragment_okl; [exact P_ok | exact H|].
+  eapply pop_path_okl in Hs1; [|exact Hbq].
+  assert (okl (if (nlen s1 =? path_start base) &&
+                  (st_is_special (scheme_type_of (b_scheme base)) || negb (inp_is_empty l))
+               then s1 ++ [47] else s1)) as H2 by okt P_ok.
+  rewrite match47 in Ha.
+  destruct (c =? 47); (eapply parse_path_okl; [exact P_ok | exact Ha | exact H2]).
+Qed.
+
+(* ---------- file ---------- *)
+Lemma okl_file_css : okl s_file_css.
+Proof.
+  apply (okl_ok _ P_ok). unfold s_file_css, s_file, s_css. cbn [app].
+  repeat constructor; unfold ok_byte; lia.
+Qed.
+
+Lemma path_okl b p : path b = Some p -> okl (ser b) -> okl p.
+Proof.
+  unfold path, u_slice_from, u_slice. intros H Hs.
+  destruct (query_start b); destruct (fragment_start b);
+    first [eapply okl_slice_o; eassumption | eapply okl_slice_from_o; eassumption].
+Qed.
+
+Lemma base_first_segment_okl b seg : base_first_segment b = Some seg -> okl (ser b) -> okl seg.
+Proof.
+  unfold base_first_segment. intros H Hs. destruct (path b) as [p|] eqn:Ep; [|discriminate].
+  apply path_okl in Ep; [|exact Hs]. destruct p as [|x r]; [discriminate|].
+  rewrite match47 in H. destruct (x =? 47); [|discriminate].
+  inversion Ep as [|? ? _ Hr]; subst.
+  pose proof (split_on_aux_okl P 47 r [] ltac:(constructor) Hr) as F. fold (split_on 47 r) in F.
+  destruct (split_on 47 r) as [|s0 t]; [discriminate|]. inversion H; subst. inversion F; assumption.
+Qed.
+
+Lemma host_str_okl b hs : host_str b = Some (Some hs) -> okl (ser b) -> okl hs.
+Proof.
+  unfold host_str, u_slice. intros H Hs. destruct (has_host b); [|discriminate].
+  destruct (slice_o (ser b) (host_start b) (host_end b)) as [x|] eqn:E; cbn [bindo] in H; [|discriminate].
+  inversion H; subst. eapply okl_slice_o; eassumption.
+Qed.
+
+Lemma parse_file_okl ctx st base_file l u :
+  parse_file dbg host_parse host_display ovr ctx st base_file l = POk u ->
+  match base_file with Some b => okl (ser b) | None => True end -> okl (ser u).
+Proof.
+  unfold parse_file. intros H Hbase.
+  assert (forall s2 hh rem s3 qs fs,
+            parse_path dbg ctx STFile false 7 (s_file_css ++ [47]) l = POk (s2, hh, rem) ->
+            parse_query_and_fragment ovr ctx STFile 4 s2 rem = POk (s3, qs, fs) -> okl s3) as Hplain.
+  { intros s2 hh rem s3 qs fs H1 H2.
+    eapply parse_query_and_fragment_okl; [exact P_ok | exact H2|].
+    eapply parse_path_okl; [exact P_ok | exact H1|]. apply okl_app; [apply okl_file_css | okt P_ok]. }
+  destruct (inp_split_first l) as [fc af]. cbv zeta in H.
+  destruct (match fc with Some c => is_slash_or_bslash c | None => false end).
+  { destruct (inp_split_first af) as [nc an].
+    destruct (match nc with Some c => is_slash_or_bslash c | None => false end).
+    - pb H a Ha. destruct a as [[[ser1 flag] hi] remaining]. pb H he Hhe.
+      pb H b Hb. destruct b as [[ser2 hh] remaining2].
+      apply parse_file_host_okl in Ha; [|apply okl_file_css].
+      assert (okl ser2) as H2.
+      { destruct flag.
+        - eapply parse_path_start_okl; [exact P_ok | exact Hb | exact Ha].
+        - eapply parse_path_okl; [exact P_ok | exact Hb|]. okt P_ok. }
+      destruct (negb hh); cbv beta iota zeta in H; pb H c Hc; destruct c as [[ser4 qs] fs];
+        inversion H; subst; cbn [ser file_url];
+        (eapply parse_query_and_fragment_okl; [exact P_ok | exact Hc|]); okt P_ok.
+    - match type of H with context [if negb (starts_with_wdl_segment af) then ?a else ?b] =>
+        destruct (if negb (starts_with_wdl_segment af) then a else b) as [[ser1 he] hi] eqn:E end.
+      assert (okl ser1) as Ee.
+      { pose proof okl_file_css as F.
+        destruct (negb (starts_with_wdl_segment af)); [|inversion E; subst; exact F].
+        destruct base_file as [base|]; [|inversion E; subst; exact F].
+        destruct (base_first_segment base) as [seg|] eqn:Eseg; [|inversion E; subst; exact F].
+        apply base_first_segment_okl in Eseg; [|exact Hbase].
+        destruct (is_normalized_wdl seg); [inversion E; subst; okt P_ok|].
+        destruct (host_str base) as [[hs|]|] eqn:Eh; try (inversion E; subst; exact F).
+        apply host_str_okl in Eh; [|exact Hbase]. inversion E; subst. okt P_ok. }
+      pb H a Ha. destruct a as [[ser2 hh] remaining]. pb H c Hc. destruct c as [[ser3 qs] fs].
+      inversion H; subst. cbn [ser file_url].
+      eapply parse_query_and_fragment_okl; [exact P_ok | exact Hc|].
+      eapply parse_path_okl; [exact P_ok | exact Ha | exact Ee]. }
+  destruct base_file as [base|].
+  2:{ pb H a Ha. destruct a as [[s2 hh] rem]. pb H c Hc. destruct c as [[s3 qs] fs].
+      inversion H; subst. cbn [ser file_url]. eapply Hplain; eassumption. }
+  pose proof (b_before_fragment_okl _ base Hbase) as Hbf. pose proof (b_before_query_okl _ base Hbase) as Hbq.
+  destruct fc as [c|]; [|inversion H; subst; exact Hbf].
+  destruct (c =? 63).
+  { pb H a Ha. destruct a as [[s qs] fs]. inversion H; subst. cbn [ser url_with].
+    eapply parse_query_and_fragment_okl; [exact P_ok | exact Ha | exact Hbq]. }
+  destruct (c =? 35); [eapply fragment_only_okl; eassumption|].
+  destruct (negb (starts_with_wdl_segment l)).
+  - pb H s1 Hs1. pb H a Ha. destruct a as [[s2 hh] rem].
+    eapply with_query_and_fragment_okl; [exact P_ok | exact H|].
+    eapply parse_path_okl; [exact P_ok | exact Ha|].
+    eapply shorten_path_okl; [exact Hs1 | exact Hbq].
+  - pb H a Ha. destruct a as [[s2 hh] rem]. pb H c0 Hc. destruct c0 as [[s3 qs] fs].
+    inversion H; subst. cbn [ser file_url]. eapply Hplain; eassumption.
+Qed.
+
+(* ---------- scheme ---------- *)
+Lemma parse_scheme_loop_ok ctx l : forall acc s r,
+  parse_scheme_loop ctx acc l = Some (s, r) -> Forall ok_byte acc -> Forall ok_byte s.
+Proof.
+  induction l as [|c t IH]; intros acc s r H Ha; cbn [parse_scheme_loop] in H.
+  - destruct (ctx_eqb ctx CSetter); [|discriminate]. inversion H; subst. apply Forall_rev. exact Ha.
+  - destruct (is_tnl c); [eapply IH; eassumption|].
+    destruct (is_lower c || is_digit c || (c =? 43) || (c =? 45) || (c =? 46)) eqn:E1.
+    { eapply IH; [exact H|]. constructor; [|exact Ha]. unfold is_lower, is_digit, ok_byte in *. lia. }
+    destruct (is_upper c) eqn:E2.
+    { eapply IH; [exact H|]. constructor; [|exact Ha]. unfold is_upper, ok_byte in *. lia. }
+    destruct (c =? 58); [|discriminate]. inversion H; subst. apply Forall_rev. exact Ha.
+Qed.
+
+Lemma parse_scheme_ok ctx l s r : parse_scheme ctx l = Some (s, r) -> Forall ok_byte s.
+Proof.
+  unfold parse_scheme. destruct (inp_starts_with_pred is_alpha l); [|discriminate].
+  intros H. eapply parse_scheme_loop_ok; [exact H | constructor].
+Qed.
+
+(* ---------- top level ---------- *)
+Lemma parse_with_scheme_okl base scheme l u :
+  (opaque_input scheme l = true -> P 32) ->
+  parse_with_scheme dbg host_parse host_parse_opaque host_display ovr base scheme l = POk u ->
+  okl scheme -> match base with Some b => okl (ser b) | None => True end -> okl (ser u).
+Proof.
+  unfold parse_with_scheme, opaque_input. intros H32 H Hsch Hbase. pb H se Hse. cbv zeta in H.
+  assert (okl (scheme ++ [58])) as H0 by okt P_ok.
+  destruct (scheme_type_of scheme).
+  - eapply parse_file_okl; [exact H|].
+    destruct base as [b|]; [|exact I]. destruct (list_eqb (b_scheme b) s_file); [exact Hbase | exact I].
+  - destruct (inp_count_matching is_slash_or_bslash l) as [slashes remaining].
+    destruct base as [b|]; [|eapply after_double_slash_okl; eassumption].
+    destruct ((slashes <? 2) && list_eqb (b_scheme b) scheme); [|eapply after_double_slash_okl; eassumption].
+    pb H u_ Hu. eapply parse_relative_okl; eassumption.
+  - eapply parse_non_special_okl; eassumption.
+Qed.
+
+Theorem parse_url_okl base input u :
+  (url_opaque_input input = true -> P 32) ->
+  parse_url dbg host_parse host_parse_opaque host_display ovr base input = POk u ->
+  match base with Some b => okl (ser b) | None => True end -> okl (ser u).
+Proof.
+  unfold parse_url, url_opaque_input. cbv zeta. intros H32 H Hbase.
+  destruct (parse_scheme CUrlParser (input_new_trim_c0 input)) as [[scheme remaining]|] eqn:Es.
+  - eapply parse_with_scheme_okl; [exact H32 | exact H | | exact Hbase].
+    apply (okl_ok _ P_ok). eapply parse_scheme_ok. exact Es.
+  - destruct base as [b|]; [|discriminate].
+    destruct (inp_starts_with_char 35 (input_new_trim_c0 input)); [eapply fragment_only_okl; eassumption|].
+    destruct (cannot_be_a_base b) as [[|]|]; try discriminate.
+    destruct (st_is_file (scheme_type_of (b_scheme b))).
+    + eapply parse_file_okl; [exact H | exact Hbase].
+    + eapply parse_relative_okl; eassumption.
+Qed.
+
+End WithHosts.
